@@ -41,6 +41,9 @@ def one(name, tier, seeds):
             res["error"] = "worktree: " + r.stderr[-300:]
             return res
         r = sh(f"git -C {wt} apply {os.path.join(d, 'patch.diff')}")
+        if r.returncode != 0:   # the patch was written against an earlier HEAD (before later fix: commits): 3-way merge
+            r = sh(f"git -C {wt} apply --3way {os.path.join(d, 'patch.diff')}")
+            res["applied_3way"] = True
         if r.returncode != 0:
             res["error"] = "patch does not apply: " + r.stderr[-300:]
             return res
